@@ -1,7 +1,19 @@
 import CovfieModel.Model.Stack
+import CovfieModel.Model.StackConv
 open Covfie
 /-! Judge for stack evaluation: parses a stack, its data, a coordinate and the implementation's output (all as bit
-    patterns tagged by scalar kind), evaluates the model, and prints a verdict. -/
+    patterns tagged by scalar kind), evaluates the model, and prints a verdict.
+
+    Lines (one answer per line):
+      <stack> | <data> | <ck> cbits… | <ok> obits…                 one-shot form
+      def <stack> | <data>                                         remember a stack              -> ok
+      at <ck> cbits… | <ok> obits… [| q i₁ i₂ …]                   judge a lookup of the remembered stack;
+                                                                   with `q`: also the multiset of flat indices
+      pb backup <ck> <M> | lo… | hi… | df… | c… | obits… | count   `backup` over the probe backend: value and
+                                                                   number of queries that reached the probe
+      pb clamp <ck> <M> | lo… | hi… | c… | obits… | count          `clamp` over the probe backend
+    Stack tokens: array constant identity strided <w> mortonT mortonF hilbert clamp backup affine shuffle <n> p…
+      cast (identity conversion) cast.<kind> (static_cast to f32 f64 i32 u32 i64 u64) deref nn linear -/
 def decodeKind (k : String) (b : Nat) : Num :=
   match k with
   | "f32" => decodeF32 b
@@ -25,20 +37,31 @@ def chunks (m : Nat) (xs : List α) : List (List α) :=
     | _, [] => []
     | f+1, xs => xs.take m :: go f (xs.drop m)
   go xs.length xs
-partial def pStack : List String → Option (Stack × List String)
-  | "array" :: r => some (.array, r) | "constant" :: r => some (.constant, r) | "identity" :: r => some (.identity, r)
-  | "strided" :: w :: r => do let (b, r') ← pStack r; pure (.strided (← w.toNat?) b, r')
-  | "mortonT" :: r => do let (b, r') ← pStack r; pure (.mortonT b, r')
-  | "mortonF" :: r => do let (b, r') ← pStack r; pure (.mortonF b, r')
-  | "hilbert" :: r => do let (b, r') ← pStack r; pure (.hilbert b, r')
-  | "clamp" :: r => do let (b, r') ← pStack r; pure (.clamp b, r')
-  | "backup" :: r => do let (b, r') ← pStack r; pure (.backup b, r')
-  | "affine" :: r => do let (b, r') ← pStack r; pure (.affine b, r')
-  | "shuffle" :: r => do let (p, r1) ← takeNums r; let (b, r') ← pStack r1; pure (.shuffle p b, r')
-  | "cast" :: r => do let (b, r') ← pStack r; pure (.cast b, r')
-  | "deref" :: r => do let (b, r') ← pStack r; pure (.deref b, r')
-  | "nn" :: r => do let (b, r') ← pStack r; pure (.nn b, r')
-  | "linear" :: r => do let (b, r') ← pStack r; pure (.linear b, r')
+def skOf : String → Option Kinds.SK
+  | "f32" => some .f32 | "f64" => some .f64 | "i32" => some .i32 | "u32" => some .u32
+  | "i64" => some .i64 | "u64" => some .u64 | _ => none
+def idConv : Conv := fun x => .ok x
+/-- the stack and the conversions of its cast layers, outermost first -/
+partial def pStack : List String → Option (Stack × List Conv × List String)
+  | "array" :: r => some (.array, [], r) | "constant" :: r => some (.constant, [], r) | "identity" :: r => some (.identity, [], r)
+  | "strided" :: w :: r => do let (b, cs, r') ← pStack r; pure (.strided (← w.toNat?) b, cs, r')
+  | "mortonT" :: r => do let (b, cs, r') ← pStack r; pure (.mortonT b, cs, r')
+  | "mortonF" :: r => do let (b, cs, r') ← pStack r; pure (.mortonF b, cs, r')
+  | "hilbert" :: r => do let (b, cs, r') ← pStack r; pure (.hilbert b, cs, r')
+  | "clamp" :: r => do let (b, cs, r') ← pStack r; pure (.clamp b, cs, r')
+  | "backup" :: r => do let (b, cs, r') ← pStack r; pure (.backup b, cs, r')
+  | "affine" :: r => do let (b, cs, r') ← pStack r; pure (.affine b, cs, r')
+  | "shuffle" :: r => do let (p, r1) ← takeNums r; let (b, cs, r') ← pStack r1; pure (.shuffle p b, cs, r')
+  | "cast" :: r => do let (b, cs, r') ← pStack r; pure (.cast b, idConv :: cs, r')
+  | "deref" :: r => do let (b, cs, r') ← pStack r; pure (.deref b, cs, r')
+  | "nn" :: r => do let (b, cs, r') ← pStack r; pure (.nn b, cs, r')
+  | "linear" :: r => do let (b, cs, r') ← pStack r; pure (.linear b, cs, r')
+  | t :: r =>
+    if t.startsWith "cast." then do
+      let k ← skOf (t.drop 5).toString
+      let (b, cs, r') ← pStack r
+      pure (.cast b, convTo k :: cs, r')
+    else none
   | _ => none
 partial def pData : List String → Option (Data × List String)
   | "array" :: k :: m :: r => do
@@ -62,24 +85,88 @@ def splitBar (xs : List String) : List (List String) :=
   xs.foldr (fun x acc => if x == "|" then [] :: acc else match acc with | a :: r => (x :: a) :: r | [] => [[x]]) [[]]
 def numEq : Num → Num → Bool
   | .fin a, .fin b => a == b | .pinf, .pinf => true | .ninf, .ninf => true | .nan, .nan => true | _, _ => false
-def step (line : String) : String :=
-  let toks := (line.trimAscii.toString.splitOn " ").filter (· ≠ "")
-  match splitBar toks with
-  | [st, dt, ck :: cbits, ok :: obits] =>
-    match pStack st, pData dt, cbits.mapM String.toNat?, obits.mapM String.toNat? with
-    | some (s, _), some (d, _), some cb, some ob =>
-      let c := cb.map (decodeKind ck)
-      let impl := ob.map (decodeKind ok)
-      match eval (fun x => .ok x) s d c with
-      | .error e => s!"ub {repr e}"
-      | .ok (v, _) =>
-        if v.length == impl.length && (v.zip impl).all (fun (a, b) => numEq a b) then "ok"
-        else s!"BAD model={repr v} impl={repr impl}"
-    | _, _, _, _ => "bad-parse"
+def sameVals (v impl : List Num) : Bool := v.length == impl.length && (v.zip impl).all (fun (a, b) => numEq a b)
+def sortNat (xs : List Nat) : List Nat := (xs.toArray.qsort (· < ·)).toList
+
+structure Cur where
+  s : Stack
+  cv : List Conv
+  d : Data
+
+def evalCur (cur : Cur) (c : List Num) : Res :=
+  evalN (fun k => cur.cv.getD k idConv) 0 cur.s cur.d c
+
+def judge (cur : Cur) (ck : String) (cbits : List String) (ok : String) (obits : List String) (q : Option (List String)) : String :=
+  match cbits.mapM String.toNat?, obits.mapM String.toNat?, (q.getD []).mapM String.toNat? with
+  | some cb, some ob, some qs =>
+    let c := cb.map (decodeKind ck)
+    let impl := ob.map (decodeKind ok)
+    match evalCur cur c with
+    | .error e => s!"ub {repr e}"
+    | .ok (v, t) =>
+      if !sameVals v impl then s!"BAD model={repr v} impl={repr impl}"
+      else if q.isSome && sortNat t != sortNat qs then s!"BAD trace model={t} impl={qs}"
+      else "ok"
+  | _, _, _ => "bad-parse"
+
+def parseDef (st dt : List String) : Option Cur :=
+  match pStack st, pData dt with
+  | some (s, cv, _), some (d, _) => some ⟨s, cv, d⟩
+  | _, _ => none
+
+def verdictPb (r : Res) (impl : List Num) (cnt : Nat) : String :=
+  match r with
+  | .error e => s!"ub {repr e}"
+  | .ok (v, t) =>
+    if !sameVals v impl then s!"BAD model={repr v} impl={repr impl} queries={t.length}"
+    else if t.length != cnt then s!"BAD queries model={t.length} impl={cnt}"
+    else s!"ok {t.length}"
+
+/-- `backup` / `clamp` over the probe backend (an arbitrary backend as far as the layer is concerned) -/
+def stepPb (parts : List (List String)) : String :=
+  let nums := fun (xs : List String) => xs.mapM String.toNat?
+  match parts with
+  | [["backup", ck, m], lo, hi, df, c, ob, [cnt]] =>
+    match m.toNat?, nums lo, nums hi, nums df, nums c, nums ob, cnt.toNat? with
+    | some M, some lo, some hi, some df, some c, some ob, some cnt =>
+      let dk := fun (xs : List Nat) => xs.map (decodeKind ck)
+      verdictPb (backupL (dk lo) (dk hi) (dk df) (probeB M) (dk c)) (dk ob) cnt
+    | _, _, _, _, _, _, _ => "bad-parse"
+  | [["clamp", ck, m], lo, hi, c, ob, [cnt]] =>
+    match m.toNat?, nums lo, nums hi, nums c, nums ob, cnt.toNat? with
+    | some M, some lo, some hi, some c, some ob, some cnt =>
+      let dk := fun (xs : List Nat) => xs.map (decodeKind ck)
+      verdictPb (clampL (dk lo) (dk hi) (probeB M) (dk c)) (dk ob) cnt
+    | _, _, _, _, _, _ => "bad-parse"
   | _ => "bad-op"
-partial def loop (h : IO.FS.Stream) : IO Unit := do
+
+def step (cur : Option Cur) (line : String) : Option Cur × String :=
+  let toks := (line.trimAscii.toString.splitOn " ").filter (· ≠ "")
+  match toks with
+  | "def" :: rest =>
+    match splitBar rest with
+    | [st, dt] => match parseDef st dt with
+      | some c => (some c, "ok")
+      | none => (none, "bad-parse")
+    | _ => (none, "bad-op")
+  | "at" :: rest =>
+    match cur, splitBar rest with
+    | some c, [ck :: cbits, ok :: obits] => (cur, judge c ck cbits ok obits none)
+    | some c, [ck :: cbits, ok :: obits, "q" :: qs] => (cur, judge c ck cbits ok obits (some qs))
+    | none, _ => (cur, "no-stack")
+    | _, _ => (cur, "bad-op")
+  | "pb" :: rest => (cur, stepPb (splitBar rest))
+  | _ =>
+    match splitBar toks with
+    | [st, dt, ck :: cbits, ok :: obits] =>
+      match parseDef st dt with
+      | some c => (cur, judge c ck cbits ok obits none)
+      | none => (cur, "bad-parse")
+    | _ => (cur, "bad-op")
+partial def loop (h : IO.FS.Stream) (cur : Option Cur) : IO Unit := do
   let line ← h.getLine
   if line.isEmpty then return ()
-  IO.println (step line)
-  loop h
-def main : IO Unit := do loop (← IO.getStdin)
+  let (cur', out) := step cur line
+  IO.println ((out.replace "\n" " ").replace "  " " ")
+  loop h cur'
+def main : IO Unit := do loop (← IO.getStdin) none
